@@ -12,9 +12,9 @@ namespace Pool.Batch
 theorem validateEndingState_ok {env : Env} {outs : List TxOut} {acct : Acct} {d : Diff}
     (h : validateEndingState env outs acct d = .ok ()) :
     if d.endingBalance < env.minNoDust then
-      d.outpointIndex < 0 ∧ d.endingState ∈ Pool.Gen.dustEndingStates
+      d.outpointIndex < 0 ∧ d.endingState ∈ Pool.Gen.Batch.dustEndingStates
     else
-      d.endingState = Pool.Gen.recreatedEndingState ∧ 0 ≤ d.outpointIndex ∧
+      d.endingState = Pool.Gen.Batch.recreatedEndingState ∧ 0 ≤ d.outpointIndex ∧
       ∃ out, outs[d.outpointIndex.toNat]? = some out ∧ out.value = d.endingBalance ∧
         env.acctScript acct.key (scriptVersion acct.version) acct.expiry = some out.script := by
   unfold validateEndingState at h
@@ -26,12 +26,12 @@ theorem validateEndingState_ok {env : Env} {outs : List TxOut} {acct : Acct} {d 
     split at h <;> try contradiction
     rename_i hi
     refine ⟨by omega, ?_⟩
-    have : Pool.Gen.dustEndingStates.contains d.endingState = true := by
-      revert hs; cases (Pool.Gen.dustEndingStates.contains d.endingState) <;> simp
+    have : Pool.Gen.Batch.dustEndingStates.contains d.endingState = true := by
+      revert hs; cases (Pool.Gen.Batch.dustEndingStates.contains d.endingState) <;> simp
     exact List.contains_iff_mem.mp this
   · rename_i hd
     simp only [hd, if_false]
-    by_cases hs : (d.endingState != Pool.Gen.recreatedEndingState) = true
+    by_cases hs : (d.endingState != Pool.Gen.Batch.recreatedEndingState) = true
     · rw [if_pos hs] at h; cases h
     rw [if_neg hs] at h
     by_cases hi : d.outpointIndex < 0
@@ -65,7 +65,7 @@ theorem verifyDiff_fixed_ok {env : Env} {b : Batch} {best : UInt32} {st st' : Ta
     (h : verifyDiff env Rules.fixed b best st seen d = .ok st') :
     ∃ e, findEntry d.acctKey st = some e ∧ d.acctKey ∉ seen ∧
       d.endingBalance = w64 (e.bal - estimateTraderFee e.chans b.feeRate e.acct.version) ∧
-      (newExpiryOf b e.acct d ≠ e.acct.expiry → newExpiryOf b e.acct d ≤ best.toNat + Pool.Gen.maxAccountExpiry) ∧
+      (newExpiryOf b e.acct d ≠ e.acct.expiry → newExpiryOf b e.acct d ≤ best.toNat + Pool.Gen.Batch.maxAccountExpiry) ∧
       (newVersionOf b e.acct d ≠ e.acct.version → validateVersion (newVersionOf b e.acct d) = true) ∧
       validateEndingState env b.txOuts (acctAfter b e.acct d) d = .ok () ∧
       ∀ k, k ≠ d.acctKey → findEntry k st' = findEntry k st := by
@@ -109,7 +109,7 @@ theorem verifyDiff_fixed_ok {env : Env} {b : Batch} {best : UInt32} {st st' : Ta
 def DiffOk (env : Env) (b : Batch) (best : UInt32) (st : Tallies) (d : Diff) : Prop :=
   ∃ e, findEntry d.acctKey st = some e ∧
     d.endingBalance = w64 (e.bal - estimateTraderFee e.chans b.feeRate e.acct.version) ∧
-    (newExpiryOf b e.acct d ≠ e.acct.expiry → newExpiryOf b e.acct d ≤ best.toNat + Pool.Gen.maxAccountExpiry) ∧
+    (newExpiryOf b e.acct d ≠ e.acct.expiry → newExpiryOf b e.acct d ≤ best.toNat + Pool.Gen.Batch.maxAccountExpiry) ∧
     (newVersionOf b e.acct d ≠ e.acct.version → validateVersion (newVersionOf b e.acct d) = true) ∧
     validateEndingState env b.txOuts (acctAfter b e.acct d) d = .ok ()
 
@@ -157,8 +157,8 @@ theorem estimateTraderFee_spec (n : Nat) (feeRate : Int) (v : Nat) (hn : 43 * n 
   have h2 : u32 (43 * n + 1) = 43 * n + 1 := Nat.mod_eq_of_lt hn
   have h1 : u32 43 = 43 := by decide
   unfold estimateTraderFee specChainFee
-  simp only [Pool.Gen.p2wshOutputSize, Pool.Gen.inputSize, Pool.Gen.witnessScaleFactor,
-    Pool.Gen.taprootMultiSigWitnessSize, Pool.Gen.multiSigWitnessSize, h1, h2]
+  simp only [Pool.Gen.Batch.p2wshOutputSize, Pool.Gen.Batch.inputSize, Pool.Gen.Batch.witnessScaleFactor,
+    Pool.Gen.Batch.taprootMultiSigWitnessSize, Pool.Gen.Batch.multiSigWitnessSize, h1, h2]
   have hdiv : Int.tdiv ((43 * n + 1 : Nat) : Int) 2 = (((43 * n + 1) / 2 : Nat) : Int) := by
     rw [Int.tdiv_eq_ediv_of_nonneg (by omega)]; simp
   rw [hdiv]
@@ -169,14 +169,14 @@ theorem estimateTraderFee_spec (n : Nat) (feeRate : Int) (v : Nat) (hn : 43 * n 
     rw [w64_eq_self (by unfold I64; omega)]; omega
   rw [e2]
   by_cases hv : v = 1 ∨ v = 2
-  · have hc : Pool.Gen.taprootWitnessVersions.contains v = true := by
+  · have hc : Pool.Gen.Batch.taprootWitnessVersions.contains v = true := by
       rcases hv with rfl | rfl <;> decide
     simp only [hc, if_true, hv] at hf ⊢
     have e3 : w64 (((4 * (84 + (43 * n + 1) / 2) : Nat) : Int) + ((66 : Nat) : Int)) = ((4 * (84 + (43 * n + 1) / 2) + 66 : Nat) : Int) := by
       rw [w64_eq_self (by unfold I64; omega)]; omega
     rw [e3, w64_eq_self hf]
-  · have hc : Pool.Gen.taprootWitnessVersions.contains v = false := by
-      simp [Pool.Gen.taprootWitnessVersions]; omega
+  · have hc : Pool.Gen.Batch.taprootWitnessVersions.contains v = false := by
+      simp [Pool.Gen.Batch.taprootWitnessVersions]; omega
     simp only [hc, hv, if_false] at hf ⊢
     have e3 : w64 (((4 * (84 + (43 * n + 1) / 2) : Nat) : Int) + ((229 : Nat) : Int)) = ((4 * (84 + (43 * n + 1) / 2) + 229 : Nat) : Int) := by
       rw [w64_eq_self (by unfold I64; omega)]; omega
@@ -185,7 +185,7 @@ theorem estimateTraderFee_spec (n : Nat) (feeRate : Int) (v : Nat) (hn : 43 * n 
 
 theorem toSatoshis_spec (t : Their) (h : t.unitsFilled < 2 ^ 32) : toSatoshis t.unitsFilled = unitsSat t := by
   unfold toSatoshis unitsSat u64
-  simp only [Pool.Gen.baseSupplyUnit]
+  simp only [Pool.Gen.Batch.baseSupplyUnit]
   have : ((t.unitsFilled : Int) * ((100000 : Nat) : Int)) % (2 ^ 64 : Int) = (t.unitsFilled : Int) * 100000 := by
     apply Int.emod_eq_of_lt <;> omega
   rw [this]
@@ -195,7 +195,7 @@ theorem toSatoshis_spec (t : Their) (h : t.unitsFilled < 2 ^ 32) : toSatoshis t.
 theorem executionFee_spec (b : Batch) (amt : Int) (h1 : I64 (amt * b.execRate)) (h2 : I64 (specExecFee b amt)) :
     executionFee b.execBase b.execRate amt = specExecFee b amt := by
   unfold executionFee scheduleExecutionFee
-  simp only [Pool.Gen.feeRatePartsPerMillion]
+  simp only [Pool.Gen.Batch.feeRatePartsPerMillion]
   rw [w64_eq_self h1]
   exact w64_eq_self h2
 
@@ -226,10 +226,10 @@ theorem delta_spec {env : Env} {b : Batch} {o : Ours} {t : Their} {d : Int}
     unfold specMatchDelta makerDelta
     simp only [hA, if_true, hsat, hdur]
     rw [executionFee_spec b _ hmul hfee, w64_add_left, w64_sub_left]
-    have hp : (if (o.auctionType == Pool.Gen.btcOutboundLiquidity) = true then w64 (unitsSat t + t.selfChanBalance)
+    have hp : (if (o.auctionType == Pool.Gen.Batch.btcOutboundLiquidity) = true then w64 (unitsSat t + t.selfChanBalance)
         else unitsSat t) = premiumBase o t := by
       unfold premiumBase bidSelfBalance outboundMarket
-      simp only [Pool.Gen.btcOutboundLiquidity, hA, if_true]
+      simp only [Pool.Gen.Batch.btcOutboundLiquidity, hA, if_true]
       by_cases ho : o.auctionType = 1
       · simp only [ho, beq_self_eq_true, if_true]
         unfold bidSelfBalance at hself; simp only [hA, if_true] at hself
@@ -246,10 +246,10 @@ theorem delta_spec {env : Env} {b : Batch} {o : Ours} {t : Their} {d : Int}
     subst hv
     unfold specMatchDelta takerDelta
     simp only [hA, Bool.false_eq_true, if_false, hsat]
-    have hp : (if (o.auctionType == Pool.Gen.btcOutboundLiquidity) = true then w64 (unitsSat t + o.selfChanBalance)
+    have hp : (if (o.auctionType == Pool.Gen.Batch.btcOutboundLiquidity) = true then w64 (unitsSat t + o.selfChanBalance)
         else unitsSat t) = premiumBase o t := by
       unfold premiumBase bidSelfBalance outboundMarket
-      simp only [Pool.Gen.btcOutboundLiquidity, hA, Bool.false_eq_true, if_false]
+      simp only [Pool.Gen.Batch.btcOutboundLiquidity, hA, Bool.false_eq_true, if_false]
       by_cases ho : o.auctionType = 1
       · simp only [ho, beq_self_eq_true, if_true]
         unfold bidSelfBalance at hself; simp only [hA, Bool.false_eq_true, if_false] at hself
